@@ -153,12 +153,15 @@ def header_cases(rng, tier, check_end, case_fix):
 
 
 def order_cases(rng):
+    """(a, b): a = the operator being pushed (always the LATER token of the expression, so its line is never smaller),
+    b = the operator on top of the stack; columns are arbitrary (macro expansion synthesises them)."""
     vals = [(10, True), (20, True), (30, False), (0, True)]
     pairs = []
     for (oa, la), (ob, lb) in itertools.product(vals, vals):
         for _ in range(6):
-            a = [oa, rng.randint(1, 3), rng.randint(1, 9), la]
-            b = [ob, rng.randint(1, 3), rng.randint(1, 9), lb]
+            lb_line = rng.randint(1, 3)
+            a = [oa, rng.randint(lb_line, 3), rng.randint(1, 9), la]
+            b = [ob, lb_line, rng.randint(1, 9), lb]
             pairs.append((a, b))
         pairs.append(([oa, 2, 5, la], [ob, 2, 5, lb]))
     return pairs
